@@ -87,12 +87,12 @@ Fixpoint alloc_all (bs : list string) (w : wstate) : list string * wstate :=
 
 Lemma alloc_all_K : forall bs R w, KInv R w -> Forall nice bs -> KInv (rev bs ++ R) (snd (alloc_all bs w)).
 Proof.
-  induction bs as [|b bs IH]; intros R w HK Hn; simpl; [exact HK|].
+  induction bs as [|b bs IH]; intros R w HK Hn; cbn [alloc_all rev]; [exact HK|].
   inversion Hn as [|? ? Hb Hr]; subst.
-  destruct (alloc b w) as [n w1] eqn:Ea. destruct (alloc_all bs w1) as [ns w2] eqn:Eb. simpl.
+  destruct (alloc b w) as [n w1] eqn:Ea. destruct (alloc_all bs w1) as [ns w2] eqn:Eb. cbn [snd].
   assert (K1 : KInv (b :: R) w1).
   { eapply alloc_K; [exact HK|exact Hb|exact Ea|intros x Hx; right; exact Hx|right; left; reflexivity]. }
-  pose proof (IH (b :: R) w1 K1 Hr) as H. rewrite Eb in H. simpl in H.
+  pose proof (IH (b :: R) w1 K1 Hr) as H. rewrite Eb in H. cbn [snd] in H.
   rewrite <- app_assoc. exact H.
 Qed.
 
@@ -104,13 +104,13 @@ Theorem names_kept_in_any_run : forall bs R w, KInv R w -> Forall nice bs ->
   nth_error (fst (alloc_all bs w)) i = Some b.
 Proof.
   induction bs as [|b0 bs IH]; intros R w HK Hn i b Hi Hu HR Hf; [destruct i; discriminate|].
-  inversion Hn as [|? ? Hb Hr]; subst. simpl.
-  destruct (alloc b0 w) as [n w1] eqn:Ea. destruct (alloc_all bs w1) as [ns w2] eqn:Eb. simpl.
-  destruct i as [|i]; simpl in *.
+  inversion Hn as [|? ? Hb Hr]; subst. cbn [alloc_all].
+  destruct (alloc b0 w) as [n w1] eqn:Ea. destruct (alloc_all bs w1) as [ns w2] eqn:Eb. cbn [fst].
+  destruct i as [|i]; cbn [nth_error firstn] in *.
   - inversion Hi; subst. f_equal. eapply alloc_keep; [exact HK|exact Hb|exact Hu|exact HR|exact Ea].
   - assert (K1 : KInv (b0 :: R) w1).
     { eapply alloc_K; [exact HK|exact Hb|exact Ea|intros x Hx; right; exact Hx|right; left; reflexivity]. }
-    pose proof (IH (b0 :: R) w1 K1 Hr i b Hi Hu) as H. rewrite Eb in H. simpl in H. apply H.
+    pose proof (IH (b0 :: R) w1 K1 Hr i b Hi Hu) as H. rewrite Eb in H. cbn [fst] in H. apply H.
     + intros [E|E]; [apply Hf; left; exact E|contradiction].
     + intro E. apply Hf. right; exact E.
 Qed.
@@ -121,6 +121,9 @@ Lemma names_kept_twice_refuted :
 Proof. exists ["nv"; "nv"], 1%nat, "nv". splits; [reflexivity|reflexivity|vm_compute; discriminate]. Qed.
 
 (* ------------------------------------------------------------------ cell measures and field ancillaries of write_skel *)
+Lemma NoDup_app_tail : forall {A} (l1 l2 : list A), NoDup (l1 ++ l2) -> NoDup l2.
+Proof. induction l1 as [|x l1 IH]; simpl; intros l2 H; [exact H|]. inversion H; subst. apply IH; assumption. Qed.
+
 Definition oset (o : option string) : list string := match o with Some s => [s] | None => [] end.
 
 Lemma write_plain_K : forall d R c w l w' l', KInv R w -> nice d -> nice_opt (c_std c) -> nice_opt (c_ncvar c) ->
@@ -146,6 +149,16 @@ Proof.
     apply alloc_spec in Ea as [_ [_ [_ [A3 _]]]]. eexists. simpl. rewrite A3. split; reflexivity.
 Qed.
 
+(* variables are only appended *)
+Lemma write_plain_fold_vars : forall d cs w l n, In n (map v_name (w_vars w)) ->
+  In n (map v_name (w_vars (fst (fold_left (write_plain d) cs (w, l))))).
+Proof.
+  intros d cs. induction cs as [|c cs IH]; intros w l n B; [exact B|].
+  cbn [fold_left]. destruct (write_plain d (w, l) c) as [w2 l2] eqn:E. apply IH.
+  unfold write_plain in E. destruct (alloc (base_name (c_ncvar c) (c_std c) d) w) as [nv wa] eqn:Ea. inversion E; subst. simpl.
+  apply alloc_spec in Ea as [_ [_ [_ [A3 _]]]]. rewrite A3, map_app. apply in_or_app; left; exact B.
+Qed.
+
 (* the names the phase gives: the set name where one is set *)
 Definition named_entry (c : con) (n : string) : string :=
   match c_type c with CMeasure => c_measure c +++ ": " +++ n | _ => n end.
@@ -167,28 +180,28 @@ Proof.
   intros d cs. induction cs as [|c cs IH]; intros R w l HK Hd HdR Hc Hnd Hg r; subst r.
   - simpl. split; [exact HK|]. exists []. rewrite app_nil_r. splits; try reflexivity.
     intros i c n H. destruct i; discriminate.
-  - simpl. destruct (write_plain d (w, l) c) as [w1 l1] eqn:E1.
+  - cbn [fold_left flat_map]. destruct (write_plain d (w, l) c) as [w1 l1] eqn:E1.
     destruct (Hc c (or_introl eq_refl)) as [Hs [Hv HsR]].
     destruct (write_plain_K d R c w l w1 l1 HK Hd Hs Hv HdR HsR E1) as [K1 N1].
-    simpl in Hnd. apply NoDup_app_remove_l in Hnd as Hnd2.
+    cbn [flat_map] in Hnd. pose proof (NoDup_app_tail _ _ Hnd) as Hnd2.
     assert (Hc2 : forall c0, In c0 cs -> nice_opt (c_std c0) /\ nice_opt (c_ncvar c0) /\ incl (oset (c_std c0)) (oset (c_ncvar c) ++ R)).
     { intros c0 H0. destruct (Hc c0 (or_intror H0)) as [A [B C]]. splits; try assumption.
       intros x Hx. apply in_or_app; right. apply C; exact Hx. }
     assert (Hg2 : forall n, In n (flat_map (fun c => oset (c_ncvar c)) cs) -> noundb n = true /\ ~ In n (oset (c_ncvar c) ++ R)).
-    { intros n Hn. destruct (Hg n) as [A B]; [simpl; apply in_or_app; right; exact Hn|]. split; [exact A|].
+    { intros n Hn. destruct (Hg n) as [A B]; [cbn [flat_map]; apply in_or_app; right; exact Hn|]. split; [exact A|].
       intro Hx. apply in_app_or in Hx as [Hx|Hx]; [|contradiction].
-      simpl in Hnd. destruct (c_ncvar c) as [m|]; simpl in *; [|contradiction].
+      destruct (c_ncvar c) as [m|]; cbn [oset app In] in *; [|contradiction].
       destruct Hx as [Hx|[]]. subst m. inversion Hnd; subst. contradiction. }
     destruct (IH (oset (c_ncvar c) ++ R) w1 l1 K1 Hd (in_or_app _ _ _ (or_intror HdR)) Hc2 Hnd2 Hg2) as [K2 [ents [E2 [L2 P2]]]].
     split.
-    + simpl. rewrite rev_app_distr, <- app_assoc.
+    + rewrite rev_app_distr, <- app_assoc.
       assert (Er : rev (oset (c_ncvar c)) = oset (c_ncvar c)) by (destruct (c_ncvar c); reflexivity).
       rewrite Er. exact K2.
     + (* the entry this construct appended *)
       assert (Hl1 : exists e, l1 = l ++ [e] /\ (forall n, c_ncvar c = Some n -> e = named_entry c n /\ In n (map v_name (w_vars w1)))).
       { unfold write_plain in E1. destruct (alloc (base_name (c_ncvar c) (c_std c) d) w) as [nv wa] eqn:Ea.
         inversion E1; subst. eexists. split; [reflexivity|]. intros n En.
-        destruct (Hg n) as [A B]; [simpl; rewrite En; left; reflexivity|].
+        destruct (Hg n) as [A B]; [cbn [flat_map]; rewrite En; left; reflexivity|].
         assert (E1' : write_plain d (w, l) c = (add_var {| v_name := nv; v_dims := dims_of w (c_axes c); v_attrs := [] |} wa,
                        l ++ [match c_type c with CMeasure => c_measure c +++ ": " +++ nv | _ => nv end])).
         { unfold write_plain. rewrite Ea. reflexivity. }
@@ -199,10 +212,6 @@ Proof.
       exists (e :: ents). rewrite E2, El1, <- app_assoc. splits; [reflexivity|simpl; rewrite L2; reflexivity|].
       intros i c0 n Hi En. destruct i as [|i]; simpl in Hi.
       * inversion Hi; subst c0. destruct (Pe n En) as [A B]. split; [simpl; rewrite A; reflexivity|].
-        (* variables are only appended afterwards *)
-        clear - B. revert w1 l1 B. induction cs as [|c1 cs IHc]; intros w1 l1 B; [exact B|].
-        simpl. destruct (write_plain d (w1, l1) c1) as [w2 l2] eqn:E. apply IHc.
-        unfold write_plain in E. destruct (alloc _ w1) as [nv wa] eqn:Ea. inversion E; subst. simpl.
-        apply alloc_spec in Ea as [_ [_ [_ [A3 _]]]]. rewrite A3, map_app. apply in_or_app; left; exact B.
-      * simpl. apply (P2 i c0 n Hi En).
+        apply write_plain_fold_vars; exact B.
+      * simpl. rewrite El1 in P2. apply (P2 i c0 n Hi En).
 Qed.
